@@ -1390,6 +1390,17 @@ func (g *Gen) ret(x *ssa.Return) {
 	}
 	cx := g.ctxReturn(res)
 	for _, e := range g.con.Ensures {
+		if e.Assumed {
+			note := "assumed postcondition of " + g.fnName() + ": " + e.Text
+			dup := false
+			for _, a := range g.assumptions {
+				dup = dup || a == note
+			}
+			if !dup {
+				g.assumptions = append(g.assumptions, note)
+			}
+			continue
+		}
 		g.obligeClause("ensures", g.evalBool(e.Expr, cx, e), e)
 	}
 	// a contract without a modifies clause means "modifies nothing that existed at entry": callers assume exactly
